@@ -1,13 +1,22 @@
-(* Integrated model of the flat-resource fragment of the gateway: any number of connections, one cached resource,
-   subscribe requests with their access and get requests, change and custom events, both task queues (the resource's
-   cache queue and every connection's queue, which carries requests, access answers and the subscription's Loaded/Event
-   items in arrival order).  One [op] is one stimulus of the harness (client frame, service answer, service event) or one
-   scheduler grant; [step] returns what the gateway emits on it.  The cache/subscription core IS Comp/Conv.v: every op is
-   executed as a short list of Conv actions ([acts_of]), so every reachable state of this machine is a reachable Conv state
-   and Conv's invariant and convergence theorem apply to it unchanged.
-   Mirrors: wsConn.SubscribeResource / Subscribe / Access, Subscription.CanGet/loadAccess and Cache.sendRequest (the access
-   answer passes through the resource's queue, then is handled on the connection queue), OnReady + GetRPCResources + ReleaseRPCResources (respond, then drain the held events), rescache.Subscribe /
-   addSubscriber (first subscriber sends the get request), EventSubscription.Enqueue / processQueue, wsConn.outputWorker. *)
+(* Integrated model of the flat-resource fragment of the gateway: any number of connections, one cached resource; subscribe
+   requests (any number per connection: direct subscriptions are counted) with their access and get requests, access answers
+   that grant or deny, unsubscribe requests with a count, re-subscription after the subscription was given up, change and
+   custom events, client disconnects at any moment, and both kinds of task queue (the resource's cache queue and every
+   connection's queue, which carries requests, access answers, the Loaded/Event items of its subscriptions and the disposal
+   task in arrival order).  One [op] is one stimulus of the harness (client frame, client disconnect, service answer, service
+   event) or one scheduler grant; [step] returns what the gateway emits on it.  A connection's Subscription object for the
+   resource is an *instance*: a fresh index of the subscriber table of Comp/Conv.v each time one is created
+   (wsConn.subscribe after the previous one was disposed).  The cache/subscription core IS Comp/Conv.v: every op is executed
+   as a short list of Conv actions ([acts_of]), so every reachable state of this machine is a reachable Conv state and
+   Conv's invariant and theorems apply to it unchanged.
+   Mirrors: rpc.HandleRequest (subscribe / unsubscribe with count), wsConn.SubscribeResource / subscribe / addCount /
+   UnsubscribeResource / UnsubscribeByRID / removeCount / tryDelete (no references) / Access / Dispose / dispose,
+   Subscription.CanGet / loadAccess (callbacks joined on one request; verdict cached) and Cache.sendRequest (the access answer
+   passes through the resource's queue, then is handled on the connection queue), OnReady / readyCallbacks + GetRPCResources
+   (empty for a resource already sent) + ReleaseRPCResources (respond, then drain the held events), Subscription.Dispose
+   (pending callbacks are dropped), rescache.Subscribe / addSubscriber (first subscriber sends the get request),
+   ResourceSubscription.Unsubscribe, EventSubscription.Enqueue / processQueue, wsConn.outputWorker / Enqueue (refused while
+   disposing). *)
 From Coq Require Import List Arith Lia Bool.
 From RG Require Import Comp.Conv.
 Import ListNotations.
@@ -20,37 +29,54 @@ Notation cstep := (Conv.step val upd app norm).
 Notation csubs := (Conv.subs val upd).
 Notation sub := (Conv.sub val upd).
 
-Inductive qitem := QReq (id : nat) | QAccess | QSub.
+Inductive qitem := QReq (id : nat) | QUnsub (id cnt : nat) | QAccess (i : nat) | QSub (i : nat) | QDispose.
 
 Record conn := { cqueue : list qitem;       (* wsConn.queue, oldest first *)
-                 reqid : option nat;        (* id of the subscribe request being served / served *)
-                 asked : bool;              (* a subscribe frame was received *)
-                 areq : bool;               (* access request sent *)
-                 aans : bool;               (* access answer delivered by the messaging system *)
-                 granted : bool }.          (* access answer handled on the connection queue (Subscription.access set) *)
+                 cur : option nat;          (* c.subs[rid]: the instance, if any *)
+                 direct : nat;              (* its direct subscription count *)
+                 disc : bool }.             (* the client closed the connection *)
 
-Record st := { cv : cst; conns : nat -> conn; mqsub : bool; getreq : bool }.
+Record inst := { owner : nat;               (* connection *)
+                 acb : list nat;            (* accessCallbacks: ids of the requests waiting for the verdict *)
+                 rcb : list nat;            (* readyCallbacks: ids of the requests waiting for the resource *)
+                 acc : option bool;         (* Subscription.access: the verdict handled on the connection queue *)
+                 ans : option bool;         (* the answer delivered by the messaging system *)
+                 lost : list nat }.         (* ids of requests whose callbacks were dropped by Dispose *)
 
+Record st := { cv : cst; conns : nat -> conn; insts : nat -> inst; next : nat; mqsub : bool; getreq : bool }.
+
+Inductive ecode := EDenied | ENoSub | EInvalid.
 Inductive out :=
-| OMqSub | OAccessReq (c : nat) | OGetReq
-| OResp (c id : nat) (v : val) | OEvent (c : nat) (u : upd) | OCustom (c : nat).
+| OMqSub | OAccessReq (c i : nat) | OGetReq
+| OResp (c id : nat) (v : option val)   (* result; the resource set holds the resource, or is empty when the client has it *)
+| OErr (c id : nat) (e : ecode)
+| OAck (c id k : nat)                   (* unsubscribe of k direct subscriptions succeeded *)
+| OEvent (c : nat) (u : upd) | OCustom (c : nat)
+| OConnUnsub (c : nat).                 (* the connection's own subscription at the messaging system is given up *)
 
 Inductive op :=
 | CSub (c id : nat)            (* client frame: subscribe *)
-| MqAccess (c : nat)           (* the service grants the access request of connection c *)
+| CUnsub (c id cnt : nat)      (* client frame: unsubscribe with count (0 stands for a count that is not positive) *)
+| Disc (c : nat)               (* the client closes the connection *)
+| MqAccess (i : nat) (g : bool)(* the service answers the access request made for instance i: get granted or not *)
 | MqGet                        (* the service answers the get request with its current state *)
 | MqEvent (u : upd) | MqCustom (* service events *)
 | GrantEs                      (* cache worker runs the head of the resource's queue *)
 | GrantConn (c : nat).         (* connection worker runs the head of connection c's queue *)
 
-Definition conn0 : conn := {| cqueue := []; reqid := None; asked := false; areq := false; aans := false; granted := false |}.
-Definition init (t : val) : st := {| cv := Conv.init val upd d t; conns := fun _ => conn0; mqsub := false; getreq := false |}.
+Definition unanswered (y : inst) : bool := match ans y with None => true | Some _ => false end.
+Definition conn0 : conn := {| cqueue := []; cur := None; direct := 0; disc := false |}.
+Definition inst0 : inst := {| owner := 0; acb := []; rcb := []; acc := None; ans := None; lost := [] |}.
+Definition init (t : val) : st :=
+  {| cv := Conv.init val upd d t; conns := fun _ => conn0; insts := fun _ => inst0; next := 0; mqsub := false; getreq := false |}.
 
 Definition set_conn (f : nat -> conn) (c : nat) (x : conn) : nat -> conn := fun c' => if Nat.eqb c' c then x else f c'.
-Definition push_q (x : conn) (i : qitem) : conn :=
-  {| cqueue := cqueue x ++ [i]; reqid := reqid x; asked := asked x; areq := areq x; aans := aans x; granted := granted x |}.
-Definition pop_q (x : conn) : conn :=
-  {| cqueue := tl (cqueue x); reqid := reqid x; asked := asked x; areq := areq x; aans := aans x; granted := granted x |}.
+Definition set_inst (f : nat -> inst) (i : nat) (x : inst) : nat -> inst := fun i' => if Nat.eqb i' i then x else f i'.
+Definition with_q (x : conn) (q : list qitem) : conn := {| cqueue := q; cur := cur x; direct := direct x; disc := disc x |}.
+Definition push_q (x : conn) (i : qitem) : conn := with_q x (cqueue x ++ [i]).
+Definition pop_q (x : conn) : conn := with_q x (tl (cqueue x)).
+Definition with_cbs (y : inst) (a r : list nat) (ac : option bool) (l : list nat) : inst :=
+  {| owner := owner y; acb := a; rcb := r; acc := ac; ans := ans y; lost := l |}.
 
 (* Subscription.processEvent with what it sends *)
 Definition proc_o (c : nat) (p : nat * val) (e : Conv.ev upd) : (nat * val) * list out :=
@@ -67,31 +93,51 @@ Fixpoint replay_o (c : nat) (p : nat * val) (l : list (Conv.ev upd)) : list out 
   | e :: l' => let '(p', o) := proc_o c p e in o ++ replay_o c p' l'
   end.
 
-(* the response of a subscribe request: the snapshot, then the events held since it was taken *)
-Definition respond_out (c : nat) (x : sub) (id : nat) : list out :=
-  OResp c id (Conv.sval val upd x) :: replay_o c (Conv.sver val upd x, Conv.sval val upd x) (Conv.eq val upd x).
-Definition can_respond (x : sub) : bool := Conv.loaded val upd x && negb (Conv.sent val upd x).
-Definition rid_of (x : conn) : nat := match reqid x with Some id => id | None => 0 end.
+(* the responses of the subscribe requests [ids] once access is granted and the resource loaded: the first one carries the
+   snapshot (unless the client has the resource already) and is followed by the events held since it was taken *)
+Definition respond_ids (c : nat) (x : sub) (ids : list nat) : list out :=
+  match ids with
+  | [] => []
+  | id :: r =>
+      (if Conv.sent val upd x then [OResp c id None]
+       else OResp c id (Some (Conv.sval val upd x)) :: replay_o c (Conv.sver val upd x, Conv.sval val upd x) (Conv.eq val upd x))
+      ++ map (fun id' => OResp c id' None) r
+  end.
+(* the Conv action that goes with it *)
+Definition respond_acts (i : nat) (x : sub) (ids : list nat) : list (Conv.action upd) :=
+  match ids with
+  | [] => []
+  | _ => if Conv.sent val upd x then [] else [Conv.Respond upd i (length (Conv.eq val upd x))]
+  end.
+Definition is_live (σ : cst) (i : nat) : bool := Conv.loaded val upd (csubs σ i).
+Definition is_closed (σ : cst) (i : nat) : bool := Conv.closed val upd (csubs σ i).
+Definition is_gone (σ : cst) (i : nat) : bool := Conv.gone val upd (csubs σ i).
 
-(* cache worker: whoever got a new item on its subscription gets one more task on its connection queue *)
-Definition fan (σ σ' : cst) (f : nat -> conn) : nat -> conn :=
-  fun c => if Nat.ltb (length (Conv.cq val upd (csubs σ c))) (length (Conv.cq val upd (csubs σ' c)))
-           then push_q (f c) QSub else f c.
+(* cache worker: every instance that got a new item gets one more task on its connection's queue (in instance order) *)
+Definition grew (σ σ' : cst) (i : nat) : bool :=
+  Nat.ltb (length (Conv.cq val upd (csubs σ i))) (length (Conv.cq val upd (csubs σ' i))).
+Definition fan (σ σ' : cst) (own : nat -> nat) (n : nat) (f : nat -> conn) : nat -> conn :=
+  fold_left (fun g i => if grew σ σ' i then set_conn g (own i) (push_q (g (own i)) (QSub i)) else g) (seq 0 n) f.
 
-(* an access answer reaches the connection through the resource's queue (Cache.sendRequest) *)
+(* an access answer reaches the connection through the resource's queue (Cache.sendRequest); a closing connection refuses it *)
 Definition nop_head (σ : cst) : option nat :=
-  match Conv.qe val upd σ with Conv.INop _ _ c :: _ => Some c | _ => None end.
-Definition pass (σ : cst) (f : nat -> conn) : nat -> conn :=
-  match nop_head σ with Some c => set_conn f c (push_q (f c) QAccess) | None => f end.
+  match Conv.qe val upd σ with Conv.INop _ _ i :: _ => Some i | _ => None end.
+Definition pass (σ : cst) (own : nat -> nat) (f : nat -> conn) : nat -> conn :=
+  match nop_head σ with
+  | Some i => if is_closed σ i then f else set_conn f (own i) (push_q (f (own i)) (QAccess i))
+  | None => f
+  end.
 
 Definition is_add_head (σ : cst) : bool :=
   match Conv.qe val upd σ with Conv.IAddSub _ _ _ :: _ => true | _ => false end.
 
+Definition insts_of (s : st) (c : nat) : list nat := filter (fun i => Nat.eqb (owner (insts s i)) c) (seq 0 (next s)).
+
 (* the Conv actions one op stands for *)
 Definition acts_of (s : st) (o : op) : list (Conv.action upd) :=
   match o with
-  | CSub _ _ => []
-  | MqAccess c => if areq (conns s c) && negb (aans (conns s c)) then [Conv.SvcNop upd c] else []
+  | CSub _ _ | CUnsub _ _ _ | Disc _ => []
+  | MqAccess i _ => if Nat.ltb i (next s) && unanswered (insts s i) then [Conv.SvcNop upd i] else []
   | MqGet => if getreq s && negb (Conv.answered val upd (cv s)) then [Conv.SvcAnswer upd] else []
   | MqEvent u => if mqsub s then [Conv.SvcUpdate upd u] else [Conv.SvcUpdate upd u; Conv.RunE upd]
   | MqCustom => if mqsub s then [Conv.SvcCustom upd] else [Conv.SvcCustom upd; Conv.RunE upd]
@@ -100,57 +146,132 @@ Definition acts_of (s : st) (o : op) : list (Conv.action upd) :=
       let x := conns s c in
       match cqueue x with
       | [] => []
-      | QReq _ :: _ => if reqid x then [] else [Conv.Subscribe upd c]
-      | QAccess :: _ =>
-          if can_respond (csubs (cv s) c) then [Conv.Respond upd c (length (Conv.eq val upd (csubs (cv s) c)))] else []
-      | QSub :: _ =>
-          let σ1 := cstep (cv s) (Conv.RunC upd c) in
-          if granted x && can_respond (csubs σ1 c)
-          then [Conv.RunC upd c; Conv.Respond upd c (length (Conv.eq val upd (csubs σ1 c)))]
-          else [Conv.RunC upd c]
+      | QReq id :: _ =>
+          match cur x with
+          | None => [Conv.Subscribe upd (next s)]
+          | Some i =>
+              match acc (insts s i) with
+              | Some true => if is_live (cv s) i then respond_acts i (csubs (cv s) i) [id] else []
+              | _ => []
+              end
+          end
+      | QUnsub _ cnt :: _ =>
+          match cur x with
+          | Some i => if Nat.leb 1 cnt && Nat.leb cnt (direct x) && Nat.eqb (direct x - cnt) 0 then [Conv.Dispose upd i false] else []
+          | None => []
+          end
+      | QAccess i :: _ =>
+          if is_gone (cv s) i then []
+          else match ans (insts s i) with
+               | Some true => if is_live (cv s) i then respond_acts i (csubs (cv s) i) (acb (insts s i)) else []
+               | Some false => if Nat.eqb (direct x - length (acb (insts s i))) 0 then [Conv.Dispose upd i false] else []
+               | None => []
+               end
+      | QSub i :: _ =>
+          let σ1 := cstep (cv s) (Conv.RunC upd i) in
+          let was_loading := negb (is_live (cv s) i) && is_live σ1 i in
+          Conv.RunC upd i :: (if was_loading then respond_acts i (csubs σ1 i) (rcb (insts s i)) else [])
+      | QDispose :: _ => map (fun i => Conv.Dispose upd i true) (insts_of s c)
       end
   end.
 
 Definition step (s : st) (o : op) : st * list out :=
   let σ' := fold_left cstep (acts_of s o) (cv s) in
+  let keep f := {| cv := σ'; conns := f; insts := insts s; next := next s; mqsub := mqsub s; getreq := getreq s |} in
   match o with
   | CSub c id =>
       let x := conns s c in
-      if asked x then (s, []) else
-      ({| cv := σ'; mqsub := mqsub s; getreq := getreq s;
-          conns := set_conn (conns s) c
-                     {| cqueue := cqueue x ++ [QReq id]; reqid := reqid x; asked := true; areq := areq x; aans := aans x; granted := granted x |} |}, [])
-  | MqAccess c =>
+      if disc x then (s, []) else (keep (set_conn (conns s) c (push_q x (QReq id))), [])
+  | CUnsub c id cnt =>
       let x := conns s c in
-      if areq x && negb (aans x) then
-        ({| cv := σ'; mqsub := mqsub s; getreq := getreq s;
-            conns := set_conn (conns s) c
-                       {| cqueue := cqueue x; reqid := reqid x; asked := asked x; areq := areq x; aans := true; granted := granted x |} |}, [])
+      if disc x then (s, []) else (keep (set_conn (conns s) c (push_q x (QUnsub id cnt))), [])
+  | Disc c =>
+      let x := conns s c in
+      if disc x then (s, []) else
+      (keep (set_conn (conns s) c {| cqueue := cqueue x ++ [QDispose]; cur := cur x; direct := direct x; disc := true |}), [])
+  | MqAccess i g =>
+      let y := insts s i in
+      if Nat.ltb i (next s) && unanswered y then
+        ({| cv := σ'; conns := conns s; next := next s; mqsub := mqsub s; getreq := getreq s;
+            insts := set_inst (insts s) i {| owner := owner y; acb := acb y; rcb := rcb y; acc := acc y; ans := Some g; lost := lost y |} |}, [])
       else (s, [])
-  | MqGet | MqEvent _ | MqCustom =>
-      ({| cv := σ'; conns := conns s; mqsub := mqsub s; getreq := getreq s |}, [])
+  | MqGet | MqEvent _ | MqCustom => (keep (conns s), [])
   | GrantEs =>
       let first_get := is_add_head (cv s) && negb (getreq s) in
-      ({| cv := σ'; conns := pass (cv s) (fan (cv s) σ' (conns s)); mqsub := mqsub s; getreq := getreq s || is_add_head (cv s) |},
+      let own := fun i => owner (insts s i) in
+      ({| cv := σ'; conns := pass (cv s) own (fan (cv s) σ' own (next s) (conns s)); insts := insts s; next := next s;
+          mqsub := mqsub s; getreq := getreq s || is_add_head (cv s) |},
        if first_get then [OGetReq] else [])
   | GrantConn c =>
       let x := conns s c in
       match cqueue x with
       | [] => (s, [])
-      | QReq id :: _ =>
-          if reqid x then ({| cv := σ'; conns := set_conn (conns s) c (pop_q x); mqsub := mqsub s; getreq := getreq s |}, []) else
-          ({| cv := σ'; mqsub := true; getreq := getreq s;
-              conns := set_conn (conns s) c
-                         {| cqueue := tl (cqueue x); reqid := Some id; asked := asked x; areq := true; aans := aans x; granted := granted x |} |},
-           (if mqsub s then [] else [OMqSub]) ++ [OAccessReq c])
-      | QAccess :: _ =>
-          ({| cv := σ'; mqsub := mqsub s; getreq := getreq s;
-              conns := set_conn (conns s) c
-                         {| cqueue := tl (cqueue x); reqid := reqid x; asked := asked x; areq := areq x; aans := aans x; granted := true |} |},
-           if can_respond (csubs (cv s) c) then respond_out c (csubs (cv s) c) (rid_of x) else [])
-      | QSub :: _ =>
-          let σ1 := cstep (cv s) (Conv.RunC upd c) in
-          let y := csubs (cv s) c in
+      | QReq id :: q =>
+          match cur x with
+          | None =>
+              (* NewSubscription; cache.Subscribe; CanGet sends the access request *)
+              let i := next s in
+              ({| cv := σ'; mqsub := true; getreq := getreq s; next := S i;
+                  conns := set_conn (conns s) c {| cqueue := q; cur := Some i; direct := 1; disc := disc x |};
+                  insts := set_inst (insts s) i {| owner := c; acb := [id]; rcb := []; acc := None; ans := None; lost := [] |} |},
+               (if mqsub s then [] else [OMqSub]) ++ [OAccessReq c i])
+          | Some i =>
+              let y := insts s i in
+              let x' := {| cqueue := q; cur := cur x; direct := S (direct x); disc := disc x |} in
+              match acc y with
+              | Some true =>
+                  if is_live (cv s) i then
+                    ({| cv := σ'; conns := set_conn (conns s) c x'; insts := insts s; next := next s; mqsub := mqsub s; getreq := getreq s |},
+                     respond_ids c (csubs (cv s) i) [id])
+                  else
+                    ({| cv := σ'; conns := set_conn (conns s) c x'; next := next s; mqsub := mqsub s; getreq := getreq s;
+                        insts := set_inst (insts s) i (with_cbs y (acb y) (rcb y ++ [id]) (acc y) (lost y)) |}, [])
+              | _ =>
+                  ({| cv := σ'; conns := set_conn (conns s) c x'; next := next s; mqsub := mqsub s; getreq := getreq s;
+                      insts := set_inst (insts s) i (with_cbs y (acb y ++ [id]) (rcb y) (acc y) (lost y)) |}, [])
+              end
+          end
+      | QUnsub id cnt :: q =>
+          match cur x with
+          | Some i =>
+              if Nat.eqb cnt 0 then (keep (set_conn (conns s) c (with_q x q)), [OErr c id EInvalid])
+              else if Nat.leb cnt (direct x) then
+                let y := insts s i in
+                if Nat.eqb (direct x - cnt) 0 then
+                  (* tryDelete: Dispose drops whatever still waits *)
+                  ({| cv := σ'; next := next s; mqsub := mqsub s; getreq := getreq s;
+                      conns := set_conn (conns s) c {| cqueue := q; cur := None; direct := 0; disc := disc x |};
+                      insts := set_inst (insts s) i (with_cbs y [] [] (acc y) (lost y ++ acb y ++ rcb y)) |}, [OAck c id cnt])
+                else
+                  (keep (set_conn (conns s) c {| cqueue := q; cur := cur x; direct := direct x - cnt; disc := disc x |}), [OAck c id cnt])
+              else (keep (set_conn (conns s) c (with_q x q)), [OErr c id ENoSub])
+          | None =>
+              (keep (set_conn (conns s) c (with_q x q)), [OErr c id (if Nat.eqb cnt 0 then EInvalid else ENoSub)])
+          end
+      | QAccess i :: q =>
+          let y := insts s i in
+          if is_gone (cv s) i then (keep (set_conn (conns s) c (with_q x q)), [])
+          else match ans y with
+               | Some true =>
+                   if is_live (cv s) i then
+                     ({| cv := σ'; conns := set_conn (conns s) c (with_q x q); next := next s; mqsub := mqsub s; getreq := getreq s;
+                         insts := set_inst (insts s) i (with_cbs y [] (rcb y) (Some true) (lost y)) |},
+                      respond_ids c (csubs (cv s) i) (acb y))
+                   else
+                     ({| cv := σ'; conns := set_conn (conns s) c (with_q x q); next := next s; mqsub := mqsub s; getreq := getreq s;
+                         insts := set_inst (insts s) i (with_cbs y [] (rcb y ++ acb y) (Some true) (lost y)) |}, [])
+               | Some false =>
+                   let left := direct x - length (acb y) in
+                   ({| cv := σ'; next := next s; mqsub := mqsub s; getreq := getreq s;
+                       conns := set_conn (conns s) c {| cqueue := q; cur := if Nat.eqb left 0 then None else cur x; direct := left; disc := disc x |};
+                       insts := set_inst (insts s) i (with_cbs y [] (if Nat.eqb left 0 then [] else rcb y) (Some false)
+                                                               (if Nat.eqb left 0 then lost y ++ rcb y else lost y)) |},
+                    map (fun id => OErr c id EDenied) (acb y))
+               | None => (keep (set_conn (conns s) c (with_q x q)), [])
+               end
+      | QSub i :: q =>
+          let σ1 := cstep (cv s) (Conv.RunC upd i) in
+          let y := csubs (cv s) i in
           let ev_out :=
             match Conv.cq val upd y with
             | Conv.CEvent _ e :: _ =>
@@ -158,8 +279,19 @@ Definition step (s : st) (o : op) : st * list out :=
                 then snd (proc_o c (Conv.sver val upd y, Conv.sval val upd y) e) else []
             | _ => []
             end in
-          ({| cv := σ'; conns := set_conn (conns s) c (pop_q x); mqsub := mqsub s; getreq := getreq s |},
-           ev_out ++ (if granted x && can_respond (csubs σ1 c) then respond_out c (csubs σ1 c) (rid_of x) else []))
+          let was_loading := negb (is_live (cv s) i) && is_live σ1 i in
+          let z := insts s i in
+          ({| cv := σ'; conns := set_conn (conns s) c (with_q x q); next := next s; mqsub := mqsub s; getreq := getreq s;
+              insts := if was_loading then set_inst (insts s) i (with_cbs z (acb z) [] (acc z) (lost z)) else insts s |},
+           ev_out ++ (if was_loading then respond_ids c (csubs σ1 i) (rcb z) else []))
+      | QDispose :: q =>
+          ({| cv := σ'; next := next s; mqsub := mqsub s; getreq := getreq s;
+              conns := set_conn (conns s) c {| cqueue := q; cur := None; direct := 0; disc := disc x |};
+              insts := match cur x with
+                       | Some i => set_inst (insts s) i (with_cbs (insts s i) [] [] (acc (insts s i)) (lost (insts s i) ++ acb (insts s i) ++ rcb (insts s i)))
+                       | None => insts s
+                       end |},
+           [OConnUnsub c])
       end
   end.
 
@@ -175,33 +307,55 @@ Definition exec1 (p : st * list out) (o : op) : st * list out :=
   let '(s, outs) := p in let '(s', o') := step s o in (s', outs ++ o').
 Definition exec (t : val) (ops : list op) : st * list out := fold_left exec1 ops (init t, []).
 
-(* what client c holds, rebuilt from the frames sent to it: the response's snapshot, then every change event applied *)
-Definition vstep (c : nat) (cur : option val) (o : out) : option val :=
+(* What client c holds, kept by the client from the frames sent to it alone: its number of direct subscriptions (one more with
+   every successful subscribe response, k fewer with a successful unsubscribe of k) and its copy of the resource (the
+   snapshot of a response that carried it, every change event applied, dropped when the count returns to zero). *)
+Record ledger := { lcnt : nat; lcopy : option val }.
+Definition lstep (c : nat) (p : ledger) (o : out) : ledger :=
   match o with
-  | OResp c' _ v => if Nat.eqb c' c then Some v else cur
-  | OEvent c' u => if Nat.eqb c' c then option_map (app u) cur else cur
-  | _ => cur
+  | OResp c' _ v => if Nat.eqb c' c then {| lcnt := S (lcnt p); lcopy := match v with Some x => Some x | None => lcopy p end |} else p
+  | OAck c' _ k => if Nat.eqb c' c then {| lcnt := lcnt p - k; lcopy := if Nat.eqb (lcnt p - k) 0 then None else lcopy p |} else p
+  | OEvent c' u => if Nat.eqb c' c then {| lcnt := lcnt p; lcopy := option_map (app u) (lcopy p) |} else p
+  | _ => p
   end.
-Definition view (c : nat) (outs : list out) : option val := fold_left (vstep c) outs None.
-(* ids of the responses sent to c *)
+Definition client (c : nat) (outs : list out) : ledger := fold_left (lstep c) outs {| lcnt := 0; lcopy := None |}.
+
+(* the client is never acknowledged an unsubscribe of more direct subscriptions than it holds (it is, when an unsubscribe request
+   meets subscribe requests that are still waiting: recorded finding KF-PENDING-DROPPED) *)
+Definition no_underflow (c : nat) (outs : list out) : Prop :=
+  forall pre id k post, outs = pre ++ OAck c id k :: post -> k <= lcnt (client c pre).
+
+(* ids of the responses (results, acknowledgements and errors) sent to c *)
 Definition resps (c : nat) (outs : list out) : list nat :=
-  flat_map (fun o => match o with OResp c' id _ => if Nat.eqb c' c then [id] else [] | _ => [] end) outs.
+  flat_map (fun o => match o with
+                     | OResp c' id _ | OErr c' id _ | OAck c' id _ => if Nat.eqb c' c then [id] else []
+                     | _ => [] end) outs.
+(* ids of the requests c made *)
+Definition reqs (c : nat) (ops : list op) : list nat :=
+  flat_map (fun o => match o with
+                     | CSub c' id | CUnsub c' id _ => if Nat.eqb c' c then [id] else []
+                     | _ => [] end) ops.
+(* ids of c's requests whose continuation was dropped with the subscription (Subscription.Dispose) *)
+Definition dropped (s : st) (c : nat) : list nat := flat_map (fun i => lost (insts s i)) (insts_of s c).
+(* the responses that carried the resource's data *)
+Definition has_data (c : nat) (o : out) : bool := match o with OResp c' _ (Some _) => Nat.eqb c' c | _ => false end.
+(* frames sent to c and requests made on its behalf *)
+Definition for_conn (c : nat) (o : out) : bool :=
+  match o with
+  | OResp c' _ _ | OErr c' _ _ | OAck c' _ _ | OEvent c' _ | OCustom c' | OAccessReq c' _ => Nat.eqb c' c
+  | _ => false
+  end.
 Definition count_out (f : out -> bool) (outs : list out) : nat := length (filter f outs).
 Definition is_getreq (o : out) := match o with OGetReq => true | _ => false end.
 Definition is_mqsub (o : out) := match o with OMqSub => true | _ => false end.
-(* id of the first subscribe frame of c *)
-Fixpoint first_req (c : nat) (ops : list op) : option nat :=
-  match ops with
-  | [] => None
-  | CSub c' id :: r => if Nat.eqb c' c then Some id else first_req c r
-  | _ :: r => first_req c r
-  end.
+Definition pending (s : st) (c : nat) : nat :=
+  match cur (conns s c) with Some i => length (acb (insts s i)) + length (rcb (insts s i)) | None => 0 end.
 
 (* nothing left to do: both kinds of queue are empty and every request the gateway sent has been answered *)
 Definition quiescent (s : st) : Prop :=
   Conv.qe val upd (cv s) = [] /\
   (forall c, cqueue (conns s c) = []) /\
   (getreq s = true -> Conv.answered val upd (cv s) = true) /\
-  (forall c, areq (conns s c) = true -> aans (conns s c) = true).
+  (forall i, i < next s -> unanswered (insts s i) = false).
 
 End Core.
